@@ -143,13 +143,14 @@ Proof.
   rewrite <- Hbody, <- Harity. destruct (ft_body Bf1 nm) as [body|] eqn:Ebody; [|discriminate Hs].
   assert (Hbn : is_bname nm = true) by (unfold is_bname; rewrite Eb, Ebody; apply orb_true_r).
   rewrite <- (Hb nm Hbn).
-  destruct ((ft_arity Bf1 nm =? zlen args) && lpure (repeat VNil (List.length args)) body && Nat.leb (heights args) n
-            && Nat.leb (height body) n && fun_eqb (gval (w_glob W1) nm) (ft_val Bf1 nm)) eqn:Ec; [|discriminate Hs].
+  destruct (Nat.leb (heights args) n && fun_eqb (gval (w_glob W1) nm) (ft_val Bf1 nm)); [|discriminate Hs].
   rewrite <- (seq_den_same _ _ Hg args Hp Hn).
   destruct (seq_res (den (w_glob W1)) args) as [xs|err] eqn:Exs.
-  - assert (Hlp : lpure xs body = true).
-    { apply andb_prop in Ec. destruct Ec as [Ec _]. apply andb_prop in Ec. destruct Ec as [Ec _].
-      apply andb_prop in Ec. destruct Ec as [Ec _]. apply andb_prop in Ec. destruct Ec as [_ Ec].
+  - destruct (ft_arity Bf1 nm =? zlen args).
+    2:{ injection Hs as <- <-. exists W2. split; [reflexivity|exact HR]. }
+    destruct (lpure (repeat VNil (List.length args)) body && Nat.leb (height body) n) eqn:Ec; [|discriminate Hs].
+    assert (Hlp : lpure xs body = true).
+    { apply andb_prop in Ec. destruct Ec as [Ec _].
       rewrite (lpure_len xs (repeat VNil (List.length args)) body); [exact Ec|].
       unfold zlen. rewrite repeat_length, (seq_res_length _ _ _ Exs). reflexivity. }
     rewrite <- (lden_same xs _ _ Hg body Hlp (Hnob nm body Ebody)).
@@ -253,24 +254,9 @@ Proof.
       * eexists. split; [reflexivity|]. constructor; cbn [wbump w_glob w_out w_in]; try assumption. reflexivity.
     + cbn [forallb] in Hw, Hn. rewrite andb_true_r in Hw, Hn. cbn [ssem] in Hs |- *.
       destruct (bop_of_name n0) as [b|] eqn:Eb.
-      2:{ rewrite <- Hbody. destruct (ft_body Bf1 n0) as [body|] eqn:Ebody; [|discriminate Hs].
-          assert (Hbn : is_bname n0 = true) by (unfold is_bname; rewrite Eb, Ebody; apply orb_true_r).
-          rewrite <- (Hb n0 Hbn).
-          rewrite <- Harity.
-          destruct ((ft_arity Bf1 n0 =? 1) && lpure1 body && Nat.leb (height a) n && Nat.leb (height body) n
-                    && fun_eqb (gval (w_glob W1) n0) (ft_val Bf1 n0)) eqn:Ec; [|discriminate Hs].
-          rewrite <- (den_same _ _ Hg a Hw Hn). destruct (den (w_glob W1) a) as [x|err].
-          - assert (Hlp : lpure [x] body = true).
-            { apply andb_prop in Ec. destruct Ec as [Ec _]. apply andb_prop in Ec. destruct Ec as [Ec _].
-              apply andb_prop in Ec. destruct Ec as [Ec _]. apply andb_prop in Ec. destruct Ec as [_ Ec].
-              rewrite (lpure_len [x] [VNil] body eq_refl). exact Ec. }
-            rewrite <- (lden_same [x] _ _ Hg body Hlp (Hnob n0 body Ebody)).
-            destruct (lden [x] (w_glob W1) body) as [y|err].
-            + destruct (is_fun y); [discriminate Hs|]. injection Hs as <- <-. eexists. split; [reflexivity|].
-              constructor; cbn [wbump w_glob w_out w_in]; assumption.
-            + injection Hs as <- <-. eexists. split; [reflexivity|].
-              constructor; cbn [wbump w_glob w_out w_in]; assumption.
-          - injection Hs as <- <-. exists W2. split; [reflexivity|exact HR]. }
+      2:{ assert (Hw1 : forallb pure [a] = true) by (cbn [forallb]; rewrite Hw; reflexivity).
+          assert (Hn1 : forallb nobe [a] = true) by (cbn [forallb]; rewrite Hn; reflexivity).
+          exact (ucall_related o1 o2 n W1 W2 n0 [a] W1' r Hw1 Hn1 Eb HR Hs). }
       assert (Hbn : is_bname n0 = true) by (unfold is_bname; rewrite Eb; reflexivity).
       rewrite <- (Hb n0 Hbn).
       destruct (Nat.leb (height a) n && Nat.leb 2 n && fun_eqb (gval (w_glob W1) n0) (ft_val Bf1 n0)); [|discriminate Hs].
